@@ -88,7 +88,7 @@ impl From<serde_json::Error> for Error { #[verifier::external_body] fn from(e: s
 pub uninterp spec fn spec_text(v: serde_json::Value) -> Seq<char>;
 #[verifier::external_body]
 pub fn extract_json(v: &serde_json::Value, buff: &mut String) -> (r: std::result::Result<(), Error>)
-    ensures r is Ok ==> final(buff)@ == old(buff)@ + spec_text(*v)
+    ensures r is Ok, final(buff)@ == old(buff)@ + spec_text(*v)      // ASSUMED (by inspection of node::extract_json: every arm returns Ok): it never fails; delete_from_index ignores its result
 { unimplemented!() }
 pub struct MutationQuery { x: u8 }
 
@@ -106,6 +106,143 @@ pub struct MutationQuery { x: u8 }
                 && final(node_to_mutate).node_fts_str is Some && final(node_to_mutate).node_fts_str->Some_0@ == spec_text(json),
             // [previous_text_and_index_flag_left_alone] the text recorded for the previous version and the entity's indexing flag are not touched here
             final(node_to_mutate).old_fts_str == old(node_to_mutate).old_fts_str && final(node_to_mutate).enable_full_text == old(node_to_mutate).enable_full_text,
+//@ end
+
+// ---- deletions: the text of a deleted row leaves the index with the row (src/database/node.rs: Node::delete_from_index, called by
+// Node::delete - local deletions - and NodeDeletionEntry::delete_all - deletion records received from a peer).  _node_fts is
+// keyed by the storage slot (rowid), which SQLite reuses: postings left behind would match the next row stored in that slot.
+// WHICH rows the SELECT returns (the rows about to be deleted that are in the index: `EXISTS (SELECT 1 FROM _node_fts ..)`) is SQL
+// and is NOT decided; decided: for every row it returns, one 'delete' of exactly the text of the stored content, under that slot,
+// and the callers do it before they delete the row.
+pub mod rusqlite_rows {
+    use vstd::prelude::*;
+    /// one row of a result set: its columns are whatever `get` decodes (uninterpreted per column and type)
+    pub struct RowData { x: u8 }
+    pub uninterp spec fn spec_col<T>(d: RowData, idx: usize) -> T;
+    pub struct Row { d: RowData }
+    impl Row {
+        pub closed spec fn data(&self) -> RowData { self.d }
+        #[verifier::external_body]
+        pub fn get<T>(&self, idx: usize) -> (r: std::result::Result<T, super::rusqlite::Error>) ensures r is Ok ==> r->Ok_0 == spec_col::<T>(self.data(), idx) { unimplemented!() }
+    }
+    /// a result set: an arbitrary finite sequence of rows, consumed from the front; reading may fail at any point
+    pub struct Rows { x: u8 }
+    impl Rows {
+        pub uninterp spec fn rem(&self) -> Seq<RowData>;
+        #[verifier::external_body]
+        pub fn next(&mut self) -> (r: std::result::Result<Option<Row>, super::rusqlite::Error>)
+            ensures match r {
+                Ok(Some(row)) => old(self).rem().len() > 0 && row.data() == old(self).rem()[0] && final(self).rem() == old(self).rem().skip(1),
+                Ok(None) => old(self).rem().len() == 0 && final(self).rem() == old(self).rem(),
+                Err(_) => true,
+            }
+        { unimplemented!() }
+    }
+}
+use rusqlite_rows::*;
+impl Statement {
+    #[verifier::external_body]
+    pub fn query<P>(&mut self, p: P) -> (r: std::result::Result<Rows, rusqlite::Error>) { unimplemented!() }
+}
+pub type Value = serde_json::Value;
+/// whether a stored content parses, and the tree it denotes (serde_json::from_str::<Value>: uninterpreted)
+pub uninterp spec fn spec_json_ok(s: Seq<char>) -> bool;
+pub uninterp spec fn spec_json_parse(s: Seq<char>) -> serde_json::Value;
+#[verifier::external_body]
+pub fn json_from_str(s: &String) -> (r: std::result::Result<serde_json::Value, serde_json::Error>)
+    ensures r is Ok <==> spec_json_ok(s@), r is Ok ==> r->Ok_0 == spec_json_parse(s@)
+{ unimplemented!() }
+/// the 'delete' a selected row must get: under its slot, with the text of its stored content ("" when it has none); a content that does not parse (cannot happen for a stored row) is left alone
+pub open spec fn delete_of(d: RowData) -> Option<FtsOp> {
+    let json = spec_col::<Option<String>>(d, 1);
+    let rowid = spec_col::<i64>(d, 0);
+    match json {
+        None => Some(FtsOp::Delete(rowid, Seq::<char>::empty())),
+        Some(j) => if spec_json_ok(j@) { Some(FtsOp::Delete(rowid, spec_text(spec_json_parse(j@)))) } else { None },
+    }
+}
+pub open spec fn deletes_of(s: Seq<RowData>) -> Seq<FtsOp> decreases s.len() {
+    if s.len() == 0 { Seq::<FtsOp>::empty() } else {
+        match delete_of(s[0]) { Some(op) => seq![op] + deletes_of(s.skip(1)), None => deletes_of(s.skip(1)) }
+    }
+}
+pub open spec fn ops_of(v: Seq<(i64, String)>) -> Seq<FtsOp> { v.map_values(|e: (i64, String)| FtsOp::Delete(e.0, e.1@)) }
+
+//@ extract src/database/node.rs :: impl Node / fn delete_from_index
+//@ result r
+//@ attr #[verifier::loop_isolation(false)]
+//@ attr #[verifier::exec_allows_no_decreases_clause]
+//@ rewrite E3 "impl rusqlite::Params" => "impl Sized" x1
+//@ rewrite E3 "serde_json::from_str::<Value>\(&json\)" => "json_from_str(&json)" x1
+//@ insert after-stmt "let mut rows = select_stmt.query(params)?;"
+        let ghost rows0 = rows.rem();
+        let ghost mut ops: Seq<FtsOp> = Seq::empty();
+        let ghost mut cur = rows0;
+//@ loop "while let Some(row) = rows.next()?"
+            invariant cur == rows.rem(), ops_of(indexed@) + deletes_of(cur) =~= deletes_of(rows0),
+//@ insert before-stmt "let json: Option<String> = row.get(1)?;"
+            proof { assert(cur.len() > 0 && row.data() == cur[0] && rows.rem() == cur.skip(1)); }
+//@ insert before-stmt "continue;"
+                    proof { assert(delete_of(cur[0]) is None); cur = rows.rem(); }
+//@ insert after-stmt "indexed.push((row.get(0)?, text));"
+            proof {
+                let n = indexed@.len() - 1;
+                assert(indexed@.subrange(0, n as int) =~= indexed@.drop_last());
+                assert(ops_of(indexed@) =~= ops_of(indexed@.drop_last()).push(FtsOp::Delete(indexed@[n as int].0, indexed@[n as int].1@)));
+                assert(delete_of(cur[0]) == Some(FtsOp::Delete(indexed@[n as int].0, indexed@[n as int].1@)));
+                cur = rows.rem();
+            }
+//@ insert before-stmt "let mut delete_fts_stmt = conn.prepare_cached("
+        assert(ops_of(indexed@) =~= deletes_of(rows0));
+        let ghost todo = indexed@;
+//@ loop "for (rowid, text) in indexed" iter itd
+            invariant itd.seq() == todo, ops =~= ops_of(todo.subrange(0, itd.index@ as int)),
+//@ insert after-stmt "delete_fts_stmt.execute((rowid, text))?;"
+            proof { ops = ops.push(FtsOp::Delete(rowid, text@)); }
+//@ insert before-stmt "Ok(())"
+        // [deleted_rows_text_leaves_the_index] for every row the selection returns (the rows about to be deleted that are in the index), exactly one 'delete' is issued, under the row's storage slot and with the text of its stored content: the same extraction that was used when the text was inserted
+        assert(ops =~= deletes_of(rows0));
+//@ end
+
+//@ extract src/database/node.rs :: impl Node / fn delete
+//@ result r
+//@ insert body-start
+        let ghost mut index_cleaned = false;
+//@ insert after-stmt "Self::delete_from_index("
+        proof { index_cleaned = true; }
+//@ insert before-stmt "delete_stmt.execute([id])?;"
+        // [local_deletion_cleans_the_index_first] a row deleted through the API leaves the index (delete_from_index: every stored row of that id that is indexed) before the row itself is deleted, in the same transaction
+        assert(index_cleaned);
+//@ end
+
+//@ extract src/database/node.rs :: struct NodeDeletionEntry
+//@ end
+pub struct DailyMutations { x: u8 }
+impl DailyMutations {
+    #[verifier::external_body]
+    pub fn set_need_update(&mut self, room: Uid, entity: &String, mut_date: i64) { unimplemented!() }   // under contract in u5_marks
+}
+impl NodeDeletionEntry {
+    /// stores the deletion record (Writeable::write: SQL)
+    #[verifier::external_body]
+    pub fn write(&mut self, conn: &Connection) -> (r: std::result::Result<(), rusqlite::Error>) ensures *final(self) == *old(self) { unimplemented!() }
+}
+//@ extract src/database/node.rs :: impl NodeDeletionEntry / fn delete_all
+//@ result r
+//@ attr #[verifier::loop_isolation(false)]
+//@ rewrite E17 "(?<=for node in )nodes(?= \{)" => "nodes.iter_mut()" x1
+//@ insert body-start
+        let ghost mut cleaned_upto: int = 0;
+        let ghost mut deleted_upto: int = 0;
+//@ loop "for node in" iter it
+            invariant cleaned_upto == it.index@, deleted_upto == it.index@,
+//@ insert after-stmt "Node::delete_from_index("
+            proof { cleaned_upto = cleaned_upto + 1; }
+//@ insert before-stmt "stmt.execute((node.room_id, node.id))?;"
+            // [received_deletion_cleans_the_index_first] for every deletion record applied from a peer, the row it deletes leaves the index (delete_from_index, for that room and id) before the row itself is deleted, in the same transaction
+            assert(cleaned_upto == deleted_upto + 1);
+//@ insert after-stmt "stmt.execute((node.room_id, node.id))?;"
+            proof { deleted_upto = deleted_upto + 1; }
 //@ end
 } // verus!
 fn main() {}
